@@ -49,11 +49,12 @@ impl<H: Hal, T: Transport> VirtIOInput<H, T> {
             let token = unsafe { event_queue.add(&[], &mut [event.as_mut_bytes()])? };
             assert_eq!(token, i as u16);
         }
+        transport.finish_init();
+
+        // The device must not be notified of available buffers before DRIVER_OK is set.
         if event_queue.should_notify() {
             transport.notify(QUEUE_EVENT);
         }
-
-        transport.finish_init();
 
         Ok(VirtIOInput {
             transport,
